@@ -400,6 +400,12 @@ def run_single(case):
             env = SingleJobShopGraphEnv(g, kw.pop("feature_observer_configs"), **kw)
         except Exception as e:  # pylint: disable=broad-except
             return {"ctor": common.exn_code(e), "text": repr(e)[:200]}
+        if case.get("copied"):
+            # the caller works on a deep copy of the environment it configured (copy.deepcopy: what vectorised
+            # environments and tree searches do): the copy is configured like the original
+            import copy
+
+            env = copy.deepcopy(env)
         del calls[:]
         out = {"ctor": 0, "space": enc_space(env.observation_space), "action": enc_action_space(env.action_space),
                "tokens": observed_tokens(env, case["cfg"], filt), "feat_order": feat_order(env)}
@@ -446,14 +452,19 @@ def run_multi(case):
             env = MultiJobShopGraphEnv(gen, fo, graph_initializer=getattr(graphs, BUILDERS[case["builder"]]), **kw)
         except Exception as e:  # pylint: disable=broad-except
             return {"ctor": common.exn_code(e), "text": repr(e)[:200]}
+        stored = int(env.feature_observer_configs is fo and env.graph_updater_config is
+                     kw.get("graph_updater_config", env.graph_updater_config)
+                     and env.reward_function_config is kw["reward_function_config"])
+        if case.get("copied"):
+            import copy
+
+            env = copy.deepcopy(env)
         del calls[:]
         first = env.single_job_shop_graph_env
         out = {"ctor": 0, "space": enc_space(env.observation_space), "action": enc_action_space(env.action_space),
                "max": inner_info(first), "tokens0": observed_tokens(first, case["cfg"], filt),
                "feat_order": feat_order(first),
-               "stored": int(env.feature_observer_configs is fo and env.graph_updater_config is
-                             kw.get("graph_updater_config", env.graph_updater_config)
-                             and env.reward_function_config is kw["reward_function_config"])}
+               "stored": stored}
         MultiJobShopGraphEnv.reset = reset
         try:
             out["episodes"] = run_episodes(env, lambda: env.single_job_shop_graph_env, env.observation_space,
@@ -574,8 +585,12 @@ class C18(Check):
                                    max_ops=4 if big else 3, big=big)
         n_ops = sum(len(j) for j in spec)
         full = rng.random() < 0.8
-        return {"kind": "single", "spec": spec, "builder": rng.randrange(4), "cfg": self.gen_cfg(rng),
+        case = {"kind": "single", "spec": spec, "builder": rng.randrange(4), "cfg": self.gen_cfg(rng),
                 "episodes": self.gen_picks(rng, rng.choice([1, 2, 2, 3]), n_ops if full else rng.randint(0, n_ops))}
+        if rng.random() < 0.2:
+            case["copied"] = 1
+            self.note("env_deep_copied_before_use")
+        return case
 
     def gen_params(self, rng):
         jlo = rng.choice([1, 2, 2, 3])
@@ -599,9 +614,13 @@ class C18(Check):
         p = self.gen_params(rng)
         if not p[8] and p[3] > p[1]:
             p[8] = 1
-        return {"kind": "multi", "params": p, "seed": rng.randrange(10 ** 6), "builder": rng.randrange(4),
+        case = {"kind": "multi", "params": p, "seed": rng.randrange(10 ** 6), "builder": rng.randrange(4),
                 "cfg": self.gen_cfg(rng, True),
                 "episodes": self.gen_picks(rng, rng.choice([2, 3, 3, 4]), p[1] * p[3])}
+        if rng.random() < 0.2:
+            case["copied"] = 1
+            self.note("env_deep_copied_before_use")
+        return case
 
     def gen_pad(self, rng):
         items = []
@@ -1024,6 +1043,8 @@ class C18(Check):
         return jobs >= 2 and any(sum(1 for s in ep["obs"][1:] if "obs" in s) >= 2 for ep in obs["episodes"])
 
     def shrink_candidates(self, case):
+        if case.get("copied"):
+            yield {k: v for k, v in case.items() if k != "copied"}
         if case["kind"] == "pad":
             for i in range(len(case["items"])):
                 yield dict(case, items=case["items"][:i] + case["items"][i + 1:])
